@@ -330,6 +330,11 @@ func runC01(r *mc.Run) {
 
 	// (c) message-level single-bit mutants handed to verify.TdxQuote.
 	c01MessageMutants(r, bases[0], lv)
+	// (c') structural mutations of the message (on the generated baseline and on the all-zero one)
+	c01MessageStructure(r, bases[0], bases[0].name)
+	if fb := c01FillBaselines(); len(fb) > 0 {
+		c01MessageStructure(r, fb[0], fb[0].name)
+	}
 }
 
 func c01Forgery(r *mc.Run, c *mc.Ctx, base *c01base, lv []int, nl int) {
@@ -588,6 +593,95 @@ func c01MessageMutants(r *mc.Run, base *c01base, lv []int) {
 		})
 		r.SectionDone(mc.Section{Name: "message-mutants/" + lvlName[l], Evaluations: int64(done), Exhaustive: done == len(muts)})
 	}
+}
+
+// c01MessageStructure: every single and double structural mutation of the genuine message (lengths, counts, absent
+// parts, numeric boundaries) and every re-split of the four RTMRs whose lengths still add up to 192 bytes, handed to
+// verify.TdxQuote: whatever is accepted must carry exactly the genuine protected content (a serialiser that truncates
+// or pads a wrongly sized field would re-create the signed bytes from a different message).
+func c01MessageStructure(r *mc.Run, base *c01base, tag string) {
+	qa, err := abi.QuoteToProto(base.raw)
+	if err != nil {
+		return
+	}
+	q0 := qa.(*pb.QuoteV4)
+	same := func(q *pb.QuoteV4) bool {
+		a, b := q.GetSignedData(), q0.GetSignedData()
+		ac, bc := a.GetCertificationData().GetQeReportCertificationData(), b.GetCertificationData().GetQeReportCertificationData()
+		return proto.Equal(q.GetHeader(), q0.GetHeader()) && proto.Equal(q.GetTdQuoteBody(), q0.GetTdQuoteBody()) &&
+			bytes.Equal(a.GetEcdsaAttestationKey(), b.GetEcdsaAttestationKey()) && proto.Equal(ac.GetQeReport(), bc.GetQeReport()) &&
+			bytes.Equal(ac.GetQeAuthData().GetData(), bc.GetQeAuthData().GetData())
+	}
+	judge := func(id string, q *pb.QuoteV4) {
+		err := world.SafeVerify(q, base.w.Options(world.L0))
+		out := verdict(err)
+		if err == nil && !same(q) {
+			r.Violate("msg:accepted-different-protected-content:"+tag, id, "verify.TdxQuote accepts a message whose header / TD body / attestation key / QE report / QE auth data is not the genuine one", nil)
+			out = "accept!"
+		}
+		r.Eval(id, true, "msg-structure:"+out)
+	}
+	muts := structuralMutations(q0)
+	type pair struct{ a, b int }
+	var work []pair
+	for i := range muts {
+		work = append(work, pair{i, -1})
+		for j := i + 1; j < len(muts); j++ {
+			work = append(work, pair{i, j})
+		}
+	}
+	done := r.Parallel(len(work), func(i int) {
+		p := work[i]
+		id := "msg-structure/" + tag + "/" + muts[p.a].name
+		if p.b >= 0 {
+			id += "+" + muts[p.b].name
+		}
+		if !r.Want(id) {
+			return
+		}
+		q := proto.Clone(q0).(*pb.QuoteV4)
+		muts[p.a].apply(q)
+		if p.b >= 0 {
+			muts[p.b].apply(q)
+		}
+		judge(id, q)
+	})
+	r.SectionDone(mc.Section{Name: "message-structure/" + tag, Evaluations: int64(done), Exhaustive: done == len(work)})
+	// RTMR re-splits
+	lens := []int{0, 1, 24, 47, 48, 49, 72, 96, 144, 192}
+	var vecs [][4]int
+	for _, a := range lens {
+		for _, b := range lens {
+			for _, c := range lens {
+				d := 192 - a - b - c
+				if d < 0 || (a == 48 && b == 48 && c == 48) {
+					continue
+				}
+				vecs = append(vecs, [4]int{a, b, c, d})
+			}
+		}
+	}
+	orig := q0.GetTdQuoteBody().GetRtmrs()
+	done = r.Parallel(len(vecs)*2, func(i int) {
+		v, fill := vecs[i/2], []byte{0xAB, 0x00}[i%2]
+		id := fmt.Sprintf("msg-structure/%s/rtmr-lengths=%v,filler=%#02x", tag, v, fill)
+		if !r.Want(id) || len(orig) != 4 {
+			return
+		}
+		q := proto.Clone(q0).(*pb.QuoteV4)
+		var rt [][]byte
+		for k := 0; k < 4; k++ {
+			b := make([]byte, v[k])
+			for x := range b {
+				b[x] = fill
+			}
+			copy(b, orig[k])
+			rt = append(rt, b)
+		}
+		q.TdQuoteBody.Rtmrs = rt
+		judge(id, q)
+	})
+	r.SectionDone(mc.Section{Name: "message-structure/rtmr-resplits/" + tag, Evaluations: int64(done), Exhaustive: done == len(vecs)*2})
 }
 
 // protectedField maps a message field path to the protected region it belongs to.
